@@ -133,6 +133,9 @@ func (msg *Message) UnmarshalXML(d *xml.Decoder, start xml.StartElement) error {
 					err = d.DecodeElement(&msg.Subject, &tt)
 				case "error":
 					err = d.DecodeElement(&msg.Error, &tt)
+				default:
+					// Unknown extension: skip it as a whole, its descendants are not children of the message
+					err = d.Skip()
 				}
 				if err != nil {
 					return err
